@@ -44,6 +44,14 @@ class Counter:
 
         return managed_list(list(items))
 
+    def shared_list(self):
+        # returns a managed proxy of ONE retained server-side object, again and again
+        from mpservice.multiprocessing.server_process import managed_list
+
+        if not hasattr(self, '_shared'):
+            self._shared = ['shared']
+        return managed_list(self._shared)
+
     def make_mixed(self, items):
         from mpservice.multiprocessing.server_process import managed_dict, managed_list
 
